@@ -11,11 +11,20 @@ Case = (prog ops).
                                      wrappers (expr is (1 j): wrap node j, or (0 z): stored constant):
                                      3 Signal::from / Signal::stored, 4 ArcSignal::from / ArcSignal::stored,
                                      5 MappedSignal / ArcMappedSignal over an (Arc)RwSignal j, 6 MaybeSignal
-         (3 kind body handler)       effect; kind 0 Effect::new, 1 RenderEffect, 2 watch, 3 watch(immediate),
-                                     4 Effect::new_isomorphic, 5 ImmediateEffect (not modelled: compare=False)
+         (3 kind body handler [par]) effect; kind 0 Effect::new, 1 RenderEffect, 2 watch, 3 watch(immediate),
+                                     4 Effect::new_isomorphic, 5 ImmediateEffect (not modelled: compare=False);
+                                     par: the effect under whose owner this effect's owner is created (-1 / absent:
+                                     under the root): a static tree of owners
+         (4 cmp src V P (T ...))     Selector over the closure src; cmp 0 Selector::new, 1 new_with_fn(==),
+                                     2 new_with_fn(same bucket of ten), 3 new_with_fn(value >= key).  The nodes
+                                     before it belong to it: V, P = (0 5 0) the cells of its value and of the value its
+                                     internal effect returned last, T = (0 6 key) one trigger per key
   expr : (0 z) | (1 j) get | (2 j) get_untracked | (3 e) untrack | (4 a b) + | (5 a b) < | (6 c a b) if | (7 s e) set
+         | (8 e j) selector e .selected(key of its j-th trigger)
   op   : (0 s v) set | (1 s) notify | (2 n) read | (3 k) poll k-th ready | (4) run to idle
-         | (5 e) pause | (6 e) resume | (7 e) dispose | (8 n) dispose the arena signal / memo n (its later
+         | (5 e) pause | (6 e) resume: Owner::pause / resume on the owner effect e was created under (reaches e and
+           every effect below it) | (7 e) dispose: the RenderEffect handles of that subtree are dropped, then the
+           owner is cleaned up | (8 n) dispose the arena signal / memo n (its later
            reads by bodies give 0 and track nothing; no later set / notify / top-level read of n)
 Events printed by harness and model:
   (0 n v) top-level read | (1 i) body starts | (2 who j v t) read inside body `who` (-1: none)
@@ -24,7 +33,43 @@ Events printed by harness and model:
 """
 from . import common as C
 
-SIG, MEMO, DER, EFF = 0, 1, 2, 3
+SIG, MEMO, DER, EFF, SEL = 0, 1, 2, 3, 4
+
+
+def is_cell(nd):
+    return nd[0] == SIG and nd[1] == 5
+
+
+def is_key(nd):
+    return nd[0] == SIG and nd[1] == 6
+
+
+def is_plain(nd):
+    """a node ordinary expressions and operations may name"""
+    return nd[0] in (MEMO, DER) or (nd[0] == SIG and nd[1] not in (5, 6))
+
+
+def sel_fn(cmp, key, v):
+    """f(key, value) of a selector"""
+    if cmp == 2:
+        return 1 if key // 10 == v // 10 else 0
+    if cmp == 3:
+        return 1 if v >= key else 0
+    return 1 if key == v else 0
+
+
+def parent_of(nd):
+    return nd[4] if nd[0] == EFF and len(nd) > 4 and nd[4] >= 0 else None
+
+
+def subtree(prog, o):
+    """effects created under the owner of effect o or below (o included), children first, o last:
+    the order in which Owner::cleanup reaches them"""
+    out = []
+    for c, nd in enumerate(prog):
+        if c != o and parent_of(nd) == o:
+            out += subtree(prog, c)
+    return out + [o]
 
 
 # ----------------------------------------------------------------------------- static helpers
@@ -48,6 +93,8 @@ def reads_of(e, acc=None, untr=False):
         reads_of(e[3], acc, untr)
     elif k == 7:
         reads_of(e[2], acc, untr)
+    elif k == 8:
+        acc.append((e[1], not untr))      # through the selector: its source is in the cone
     return acc
 
 
@@ -90,6 +137,8 @@ def bodies(nd):
         return [nd[2]]
     if nd[0] == EFF:
         return [nd[2], nd[3]]
+    if nd[0] == SEL:
+        return [nd[2]]
     return []
 
 
@@ -112,28 +161,58 @@ def cone(prog, i, memo=None):
 
 def valid_prog(prog):
     """generator preconditions: a DAG by index, effects are sinks, writes only from effects to signals"""
+    owned = set()      # cells / triggers that belong to a selector
     for i, nd in enumerate(prog):
-        if not isinstance(nd, list) or not nd or nd[0] not in (0, 1, 2, 3):
+        if not isinstance(nd, list) or not nd or nd[0] not in (0, 1, 2, 3, 4):
             return False
-        want = {SIG: 3, MEMO: 4, DER: 3, EFF: 4}[nd[0]]
-        if len(nd) != want:
+        want = {SIG: (3,), MEMO: (4,), DER: (3,), EFF: (4, 5), SEL: (6,)}[nd[0]]
+        if len(nd) not in want:
             return False
-        for bi, b in enumerate(bodies(nd)):
-            if not valid_expr(b):
+        if nd[0] == EFF and len(nd) == 5:
+            q = nd[4]
+            if not isinstance(q, int) or q < -1 or q >= i:
                 return False
-            for j, _ in reads_of(b):
-                if not (0 <= j < i) or prog[j][0] == EFF:
-                    return False
+            if q >= 0 and (prog[q][0] != EFF or prog[q][1] == 5 or nd[1] == 5):
+                return False
+        if nd[0] == SEL:
+            if not (isinstance(nd[1], int) and 0 <= nd[1] <= 3 and isinstance(nd[5], list) and nd[5]):
+                return False
+            mine = [nd[3], nd[4]] + nd[5]
+            if len(set(mine)) != len(mine) or any((not isinstance(x, int)) or not (0 <= x < i) or x in owned for x in mine):
+                return False
+            if not (is_cell(prog[nd[3]]) and is_cell(prog[nd[4]]) and all(is_key(prog[t]) for t in nd[5])):
+                return False
+            if len({prog[t][2] for t in nd[5]}) != len(nd[5]):
+                return False
+            owned |= set(mine)
+        for bi, b in enumerate(bodies(nd)):
+            if not valid_expr(b) or not valid_refs(prog, i, b):
+                return False
             ws = writes_of(b)
             if ws and nd[0] != EFF:
                 return False
-            for s in ws:
-                if not (0 <= s < i) or prog[s][0] != SIG:
-                    return False
         if nd[0] == EFF and nd[1] not in (2, 3) and nd[3] != [0, 0]:
             return False
         if nd[0] == DER and nd[1] >= 3 and not valid_wrapper(prog, i):
             return False
+    return True
+
+
+def valid_refs(prog, i, e):
+    """every node an expression of node i names is declared before i and is of the right kind"""
+    k = e[0]
+    if k in (1, 2):
+        return 0 <= e[1] < i and is_plain(prog[e[1]])
+    if k == 3:
+        return valid_refs(prog, i, e[1])
+    if k in (4, 5):
+        return valid_refs(prog, i, e[1]) and valid_refs(prog, i, e[2])
+    if k == 6:
+        return all(valid_refs(prog, i, x) for x in e[1:])
+    if k == 7:
+        return 0 <= e[1] < i and prog[e[1]][0] == SIG and is_plain(prog[e[1]]) and valid_refs(prog, i, e[2])
+    if k == 8:
+        return 0 <= e[1] < i and prog[e[1]][0] == SEL and 0 <= e[2] < len(prog[e[1]][5])
     return True
 
 
@@ -143,7 +222,7 @@ def wrappable(prog, j, flavour):
     if flavour == 5:
         return nd[0] == SIG and nd[1] in (0, 2)
     if nd[0] == SIG:
-        return nd[1] != 3            # the ArcTrigger-backed cell is not a signal type
+        return nd[1] not in (3, 5, 6)    # the ArcTrigger-backed cell is not a signal type
     if nd[0] == MEMO:
         return True
     if nd[0] == DER:
@@ -177,6 +256,8 @@ def valid_expr(e, depth=0):
         return len(e) == 4 and all(valid_expr(x, depth + 1) for x in e[1:])
     if k == 7:
         return len(e) == 3 and isinstance(e[1], int) and valid_expr(e[2], depth + 1)
+    if k == 8:
+        return len(e) == 3 and isinstance(e[1], int) and isinstance(e[2], int)
     return False
 
 
@@ -209,13 +290,13 @@ def valid_ops(prog, ops):
             gone.add(o[1])
             continue
         if k == 0:
-            if len(o) != 3 or not (0 <= o[1] < len(prog)) or prog[o[1]][0] != SIG:
+            if len(o) != 3 or not (0 <= o[1] < len(prog)) or prog[o[1]][0] != SIG or not is_plain(prog[o[1]]):
                 return False
         elif k == 1:
-            if len(o) != 2 or not (0 <= o[1] < len(prog)) or prog[o[1]][0] != SIG:
+            if len(o) != 2 or not (0 <= o[1] < len(prog)) or prog[o[1]][0] != SIG or not is_plain(prog[o[1]]):
                 return False
         elif k == 2:
-            if len(o) != 2 or not (0 <= o[1] < len(prog)) or prog[o[1]][0] == EFF:
+            if len(o) != 2 or not (0 <= o[1] < len(prog)) or not is_plain(prog[o[1]]):
                 return False
         elif k == 3:
             if len(o) != 2 or o[1] < 0:
@@ -354,7 +435,7 @@ def add_writes(rng, prog):
     """let some effects write signals, keeping [writes_terminate]"""
     memo = {}
     effs = [i for i, nd in enumerate(prog) if nd[0] == EFF]
-    sigs = [i for i, nd in enumerate(prog) if nd[0] == SIG]
+    sigs = [i for i, nd in enumerate(prog) if nd[0] == SIG and is_plain(nd)]
     for e in effs:
         if prog[e][1] == 5 or rng.random() > 0.35:
             continue
@@ -363,7 +444,7 @@ def add_writes(rng, prog):
         if not ok:
             continue
         s = rng.choice(ok)
-        mine = sorted(j for j in cone(prog, e, memo) if prog[j][0] != EFF and j < e)
+        mine = sorted(j for j in cone(prog, e, memo) if is_plain(prog[j]) and j < e)
         val = [0, rng.randint(0, 3)]
         if mine and rng.random() < 0.6:
             val = [4, [1 if rng.random() < 0.7 else 2, rng.choice(mine)], [0, rng.randint(0, 1)]]
@@ -408,8 +489,8 @@ def gen_ops(rng, prog, n_ops, w=(0.34, 0.05, 0.36, 0.10, 0.10, 0.05), vals=(0, 1
     """weights: write, notify, read, tick, run, pause/resume/dispose"""
     if p_drop:
         return add_disposals(rng, prog, gen_ops(rng, prog, n_ops, w, vals), p_drop)
-    sigs = [i for i, nd in enumerate(prog) if nd[0] == SIG]
-    readable = [i for i, nd in enumerate(prog) if nd[0] != EFF]
+    sigs = [i for i, nd in enumerate(prog) if nd[0] == SIG and is_plain(nd)]
+    readable = [i for i, nd in enumerate(prog) if is_plain(nd)]
     effs = [i for i, nd in enumerate(prog) if nd[0] == EFF]
     derived = [i for i in readable if prog[i][0] != SIG]
     ops = []
@@ -436,6 +517,90 @@ def gen_ops(rng, prog, n_ops, w=(0.34, 0.05, 0.36, 0.10, 0.10, 0.05), vals=(0, 1
         else:
             ops.append([2, rng.choice(readable)])
     return ops
+
+
+def add_owner_tree(rng, prog, p_child=0.6):
+    """put the owners of the effects into a tree: an effect's owner is created under the owner of an
+    earlier effect (ImmediateEffect stays outside)"""
+    effs = [i for i, nd in enumerate(prog) if nd[0] == EFF and nd[1] != 5]
+    for n, e in enumerate(effs):
+        if n and rng.random() < p_child:
+            # prefer the previous effect, so that chains of depth 3 and more form
+            q = effs[n - 1] if rng.random() < 0.6 else rng.choice(effs[:n])
+            prog[e] = prog[e][:4] + [q]
+    return prog
+
+
+SEL_VALUES = (0, 1, 2, 3, 5, 9, 10, 11, 15, 19, 20, 21, 25, 30)
+
+
+def gen_selector_program(rng, n_eff, n_sel=1, eff_kinds=(0, 0, 1, 2, 3, 4), p_memo=0.4):
+    """signals, optionally a memo or two, n_sel selectors (each: two cells, 1-4 key triggers, the selector), then
+    memos / effects that call selected(key) besides ordinary reads"""
+    prog = []
+    for _ in range(rng.randint(1, 3)):
+        prog.append([0, rng.choice([0, 0, 1, 1, 2, 3, 4]), rng.choice(SEL_VALUES)])
+    sigs = list(range(len(prog)))
+    if rng.random() < p_memo:
+        prog.append([1, rng.choice([0, 0, 1]), rng.randint(0, 1), gen_expr(rng, sigs, 1, 0.05, sigs)])
+    sels = []
+    for _ in range(n_sel):
+        readable = [j for j, nd in enumerate(prog) if is_plain(nd)]
+        r = rng.random()
+        if r < 0.55:
+            src = [1, rng.choice(readable)]
+        elif r < 0.8:
+            src = [4, [1, rng.choice(readable)], [0, rng.choice([1, 5, 10])]]
+        else:
+            src = gen_expr(rng, readable, 1, 0.05, sigs)
+        if sels and rng.random() < 0.25:
+            e0, ts0 = rng.choice(sels)
+            src = [4, src, [8, e0, rng.randrange(len(ts0))]]       # a selector over another selector
+        cmp = rng.choice([0, 1, 2, 2, 3])
+        v = len(prog)
+        prog += [[0, 5, 0], [0, 5, 0]]
+        keys = []
+        for _ in range(rng.randint(1, 4)):
+            k = rng.choice(SEL_VALUES) if rng.random() < 0.8 else rng.randint(0, 35)
+            if k not in keys:
+                keys.append(k)
+        ts = []
+        for k in keys:
+            ts.append(len(prog))
+            prog.append([0, 6, k])
+        prog.append([4, cmp, src, v, v + 1, ts])
+        sels.append((len(prog) - 1, ts))
+
+    def sel_expr(depth):
+        e, ts = rng.choice(sels)
+        x = [8, e, rng.randrange(len(ts))]
+        if rng.random() < 0.08:
+            x = [3, x]
+        if depth and rng.random() < 0.5:
+            readable = [j for j, nd in enumerate(prog) if is_plain(nd)]
+            y = sel_expr(depth - 1) if rng.random() < 0.5 else gen_expr(rng, readable, 1, 0.05, sigs)
+            r = rng.random()
+            if r < 0.5:
+                return [4, x, y] if rng.random() < 0.5 else [4, y, x]
+            if r < 0.8:
+                return [6, x, y, gen_expr(rng, readable, 0, 0.05, sigs)]
+            return [6, y, x, [0, rng.randint(0, 3)]]
+        return x
+
+    placed = 0
+    while placed < n_eff:
+        readable = [j for j, nd in enumerate(prog) if is_plain(nd)]
+        if rng.random() < 0.25:
+            prog.append([1, rng.choice([0, 0, 1, 2]), rng.randint(0, 1), sel_expr(rng.choice([0, 1]))])
+            continue
+        kind = rng.choice(eff_kinds)
+        body = sel_expr(rng.choice([0, 1, 1, 2])) if rng.random() < 0.85 else gen_expr(rng, readable, 2, 0.05, sigs)
+        h = [0, 0]
+        if kind in (2, 3):
+            h = gen_expr(rng, readable, rng.choice([0, 1]), 0.0, sigs)
+        prog.append([3, kind, body, h])
+        placed += 1
+    return prog
 
 
 def same_for_subscribers(nd, a, b):
@@ -473,8 +638,12 @@ class Walker:
         self.endval = {}       # memo -> last computed value
         self.runs = {}         # i -> number of body runs started
         self.running = []      # stack of (i, handler?)
-        self.alive = {i: True for i, nd in enumerate(prog) if nd[0] == EFF}
-        self.paused = {i: False for i, nd in enumerate(prog) if nd[0] == EFF}
+        # a selector's internal effect is an effect nobody pauses or disposes
+        self.alive = {i: True for i, nd in enumerate(prog) if nd[0] in (EFF, SEL)}
+        self.paused = {i: False for i, nd in enumerate(prog) if nd[0] in (EFF, SEL)}
+        self.selval = {}       # selector -> value its internal effect stored last
+        self.selprev = {}      # ... and the one before
+        self.sel_of_key = {t: i for i, nd in enumerate(prog) if nd[0] == SEL for t in nd[5]}
         self.diverged = False
         self.gone = set()      # disposed signals / memos
         self.epoch = 0         # bumped at every write (memoisation of truth values)
@@ -502,7 +671,7 @@ class Walker:
         handler = e[0] == 5
         self.pos += 1
         i = e[1]
-        if not (0 <= i < len(self.prog)) or self.prog[i][0] not in (MEMO, EFF) or (handler and self.prog[i][0] != EFF):
+        if not (0 <= i < len(self.prog)) or self.prog[i][0] not in (MEMO, EFF, SEL) or (handler and self.prog[i][0] != EFF):
             raise Malformed("body start of a node that has no body: %r" % (e,))
         nd = self.prog[i]
         body = nd[3] if (nd[0] == MEMO or handler) else nd[2]
@@ -523,6 +692,10 @@ class Walker:
             old = self.endval.get(i)
             changed = True if nd[1] == 1 else (old is None or not same_for_subscribers(nd, old, v))
             self.endval[i] = v
+        if nd[0] == SEL:
+            self.selprev[i] = self.selval.get(i)
+            self.selval[i] = v
+            self.epoch += 1
         self.hooks.end(self, i, v, handler, changed)
 
     def exec(self, e, who, untr):
@@ -549,7 +722,28 @@ class Walker:
             v = self.exec(e[2], who, untr)
             self.do_write(e[1], v, who)
             return v
+        if k == 8:
+            return self.read_sel(who, e[1], e[2], untr)
         raise Malformed("bad expression")
+
+    def selected_now(self, t):
+        """what selected(key of trigger t) returns: f(key, the value the selector holds)"""
+        sel = self.sel_of_key[t]
+        if sel not in self.selval:
+            raise Malformed("selected() before the selector %d has a value" % sel)
+        return sel_fn(self.prog[sel][1], self.prog[t][2], self.selval[sel])
+
+    def read_sel(self, who, sel, j, untr):
+        t = self.prog[sel][5][j]
+        tr = 1 if (not untr and who >= 0) else 0
+        e = self.take(2)
+        if e[1] != who or e[2] != t or e[3] != 0 or e[4] != tr:
+            raise Malformed("read event %r does not fit selected() on trigger %d by %d (tracked=%d)" % (e, t, who, tr))
+        r = self.selected_now(t)
+        if who >= 0 and self.running and not self.running[-1][1] and self.running[-1][0] == who:
+            self.lastlog[who].append((t, r, tr))
+        self.hooks.read(self, who, t, r, tr)
+        return r
 
     def do_write(self, s, v, who):
         if v is not None:
@@ -613,11 +807,14 @@ class Walker:
                     self.take(7)
                     self.hooks.idle(self)
             elif k == 5:
-                self.paused[o[1]] = True
+                for d in subtree(self.prog, o[1]):
+                    self.paused[d] = True
             elif k == 6:
-                self.paused[o[1]] = False
+                for d in subtree(self.prog, o[1]):
+                    self.paused[d] = False
             elif k == 7:
-                self.alive[o[1]] = False
+                for d in subtree(self.prog, o[1]):
+                    self.alive[d] = False
                 self.blocks()
             elif k == 8:
                 self.gone.add(o[1])
@@ -649,6 +846,10 @@ class Truth:
         nd = w.prog[j]
         if j in w.gone:
             v = 0
+        elif is_key(nd):
+            # the selector's value is state (written by its internal effect); whether that effect has
+            # caught up with its source is checked on the effect itself
+            v = w.selected_now(j) if w.sel_of_key.get(j) in w.selval else None
         elif nd[0] == SIG:
             v = w.sig[j]
         elif nd[0] == MEMO:
@@ -693,6 +894,8 @@ class Truth:
             return self.ev(e[2], untr, st) if c != 0 else self.ev(e[3], untr, st)
         if k == 7:
             return self.ev(e[2], untr, st)
+        if k == 8:
+            return self.rd(self.w.prog[e[1]][5][e[2]], True, untr, st)
         return None
 
     def rd(self, j, m, untr, st):
@@ -760,6 +963,8 @@ class Truth:
             return self.ev_now(e[2]) if c != 0 else self.ev_now(e[3])
         if k == 7:
             return self.ev_now(e[2])
+        if k == 8:
+            return self.of(self.w.prog[e[1]][5][e[2]])
         return None
 
 
@@ -781,8 +986,9 @@ class C01Hooks(Hooks):
         nd = w.prog[j]
         if self.only_eff and not (who >= 0 and w.prog[who][0] == EFF):
             return
-        if nd[0] == DER:
+        if nd[0] == DER or is_key(nd):
             return            # its value is the replay of the reads just made, each checked separately
+                              # (selected(): a function of the selector's state, see Truth.of)
         want = self.truth.of(j)
         if want is None:
             return
@@ -886,12 +1092,30 @@ class C02Hooks(Hooks):
             if s in self.logged_cone(w, e):
                 self.hit_after_resume[e] = True
 
+    def end(self, w, i, v, handler, changed):
+        # a selector's internal effect has stored a new value: by the selector's contract the
+        # subscribers of key k are told iff f(k, .) differs between the previous and the new value
+        if w.prog[i][0] != SEL:
+            return
+        prev = w.selprev.get(i)
+        if prev is None:
+            return
+        flipped = {t for t in w.prog[i][5] if sel_fn(w.prog[i][1], w.prog[t][2], prev) != sel_fn(w.prog[i][1], w.prog[t][2], v)}
+        if flipped:
+            for e in w.alive:
+                if flipped & self.logged_cone(w, e):
+                    self.hit_after_resume[e] = True
+
     def op(self, w, o):
         k = o[0]
-        if k == 5 and w.alive.get(o[1]):
-            self.paused_since_run[o[1]] = True
+        if k == 5:
+            for d in subtree(w.prog, o[1]):
+                if w.alive.get(d):
+                    self.paused_since_run[d] = True
         if k == 6:
-            self.hit_after_resume[o[1]] = False
+            for d in subtree(w.prog, o[1]):
+                if w.paused.get(d):
+                    self.hit_after_resume[d] = False
         # wake order: idle, then one top-level write, then run-to-idle
         self.expect_order = None
         if k == 0 or k == 1:
@@ -998,6 +1222,8 @@ def show_expr(e):
         return "(if %s then %s else %s)" % (show_expr(e[1]), show_expr(e[2]), show_expr(e[3]))
     if k == 7:
         return "set(n%d, %s)" % (e[1], show_expr(e[2]))
+    if k == 8:
+        return "n%d.selected(key#%d)" % (e[1], e[2])
     return "?"
 
 
@@ -1008,7 +1234,15 @@ def describe(item):
         sf = ["ArcRwSignal", "signal()", "RwSignal", "ArcTrigger cell", "arc_signal()"]
         ek = ["Effect::new", "RenderEffect", "watch", "watch(immediate)", "Effect::new_isomorphic", "ImmediateEffect"]
         for i, nd in enumerate(prog):
-            if nd[0] == SIG:
+            if is_cell(nd):
+                out.append("n%d = <selector cell>" % i)
+            elif is_key(nd):
+                out.append("n%d = <selector key %d>" % (i, nd[2]))
+            elif nd[0] == SEL:
+                cn = ["Selector::new", "Selector::new_with_fn[==]", "Selector::new_with_fn[same bucket of ten]",
+                      "Selector::new_with_fn[value >= key]"]
+                out.append("n%d = %s(%s) keys %s" % (i, cn[nd[1] % 4], show_expr(nd[2]), [prog[t][2] for t in nd[5]]))
+            elif nd[0] == SIG:
                 out.append("n%d = %s(%d)" % (i, sf[nd[1] % 5], nd[2]))
             elif nd[0] == MEMO:
                 out.append("n%d = %s%s(%s)" % (i, ["ArcMemo", "Memo"][nd[2] % 2],
@@ -1018,7 +1252,8 @@ def describe(item):
                 out.append("n%d = %s(%s)" % (i, wn[nd[1]] if 0 <= nd[1] < len(wn) else "derived", show_expr(nd[2])))
             else:
                 h = "" if nd[1] not in (2, 3) else " handler %s" % show_expr(nd[3])
-                out.append("n%d = %s(%s)%s" % (i, ek[nd[1] % 6], show_expr(nd[2]), h))
+                own = "" if parent_of(nd) is None else " [owner under n%d's]" % nd[4]
+                out.append("n%d = %s(%s)%s%s" % (i, ek[nd[1] % 6], show_expr(nd[2]), h, own))
         on = ["set", "notify", "read", "poll#", "run-to-idle", "pause", "resume", "dispose", "dispose-source"]
         os_ = []
         for o in ops:
